@@ -42,8 +42,12 @@ pub fn dt_from_off(day: i64, nanos: u64, off: i32) -> Option<DateTime> {
 }
 
 /// instant of a DateTime in nanoseconds since 0001-01-01T00:00Z, read through timestamp() and nano()
+/// after moving the value to offset 0 (which never changes the instant, C10)
 pub fn dt_instant(dt: &DateTime) -> Option<i128> {
-    match call(|| (dt.timestamp(), dt.nano())) {
+    match call(|| {
+        let z = dt.set_offset(Offset::Fixed(0));
+        (z.timestamp(), z.nano())
+    }) {
         Out::Val((ts, ns)) => Some((ts as i128 + cal::DAYS_TO_1970 as i128 * 86_400) * NS + ns as i128),
         _ => None,
     }
